@@ -63,9 +63,9 @@ pub fn c02(ctx: &Ctx) -> (Report, Meta) {
     rep.sample(json!({"number":1004,"base":"zero","level":1,"deviations":[{"bit_offset":55,"bits":5,"value":"every 0..31"}],"then":"T = needed, needed-1 bytes"}));
     let thorough = ctx.tier.thorough();
     let meta = Meta {
-        rule: "for every supported message number and every base payload (zero, ones, the repository's testdata payloads zero-extended to 1023 bytes, + a counter pattern in thorough): the 0-deviation run, every payload length 0..=1023, every single-field deviation (positions from the H2 parse trace; all 2^len values for len<=8, boundary values and mask patterns above), payload lengths 'needed' and 'needed-1' for typed results; 2 deviations (control field at each boundary value x every later field at its boundary alphabet; control pairs first) up to a cap per base (3 000 quick / 400 000 thorough). Plus raw buffers: alphabet strings, token streams and buffers beyond 1029 bytes scanned with MsgFrameIter and every frame decoded. Oracle: no panic, a documented outcome, m == m, no NaN/inf in the Debug rendering (scanned for the first execution of every distinct parse-trace shape; per-field finiteness over all patterns is C08's). states = distinct (parse-trace shape, outcome) pairs; transitions = decoder executions".into(),
+        rule: "for every supported message number and every base payload (zero, ones, the repository's testdata payloads zero-extended to 1023 bytes, + a counter pattern in thorough): the 0-deviation run, every payload length 0..=1023, every single-field deviation (positions from the H2 parse trace; all 2^len values for len<=8, boundary values and mask patterns above), payload lengths 'needed' and 'needed-1' for typed results; 2 deviations (control field at each boundary value x every later field at its boundary alphabet; control pairs first) up to a cap per base (3 000 quick / 1 500 000 thorough, where thorough uses the full single-field alphabet for the second field as well); thorough adds 3 deviations (control x control x later control-like field, cap 150 000 per base). Plus raw buffers: alphabet strings, token streams and buffers beyond 1029 bytes scanned with MsgFrameIter and every frame decoded. Oracle: no panic, a documented outcome, m == m, no NaN/inf in the Debug rendering (scanned for the first execution of every distinct parse-trace shape; per-field finiteness over all patterns is C08's). states = distinct (parse-trace shape, outcome) pairs; transitions = decoder executions".into(),
         exhaustive: false,
-        bounds: json!({"deviation_bound": 2, "level2_cap_per_base": if thorough {400000} else {3000}, "payload_lengths":"0..=1023 at level 0", "note":"deviation-bounded: complete for <= bound deviations from each base within the stated alphabets; where the level-2 cap was hit the evidence counts it"}),
+        bounds: json!({"deviation_bound": if thorough {3} else {2}, "level2_cap_per_base": if thorough {1500000} else {3000}, "level3_cap_per_base": if thorough {150000} else {0}, "payload_lengths":"0..=1023 at level 0", "note":"deviation-bounded: complete for <= bound deviations from each base within the stated alphabets; where the level-2 cap was hit the evidence counts it"}),
         assumptions: vec!["field positions come from the parse trace of the parent run (a field's position depends only on earlier fields)".into()],
     };
     (rep, meta)
@@ -80,7 +80,7 @@ pub fn c01a(ctx: &Ctx) -> (Report, Meta) {
     let meta = Meta {
         rule: "part A: every typed message obtained by the deviation-bounded decode exploration (all supported numbers x bases x 0/1(/2) field deviations) is handed to the real encoder; whenever it is accepted, decoding the built frame must return the same variant and an equal message (1059/1065: after a stable sort of the bias list by satellite). traces_validated = typed messages accepted by the encoder and compared".into(),
         exhaustive: false,
-        bounds: json!({"deviation_bound": 2, "level2_cap_per_base": if thorough {400000} else {3000}}),
+        bounds: json!({"deviation_bound": 2, "level2_cap_per_base": if thorough {1500000} else {3000}}),
         assumptions: vec![],
     };
     (rep, meta)
